@@ -6,8 +6,10 @@ import dbcommon as D
 
 class C13(Prop):
     id = "C13"
-    translators = []
-    proof_targets = ["Outstation/EventBufferProofs.vo", "Outstation/SessionC13Proofs.vo", "Outstation/FullProofs.vo"]
+    # gen_session_tables: IIN masks and the conditions of get_response_iin (theorems C13_tables_*, Outstation/TablesAgree.v)
+    translators = ["gen_variations", "gen_qualifiers", "gen_functions", "gen_session_tables"]
+    proof_targets = ["Outstation/EventBufferProofs.vo", "Outstation/SessionC13Proofs.vo", "Outstation/FullProofs.vo",
+                     "Outstation/TablesAgree.vo"]
     property_file = "Properties/C13.v"
     theorems = []
     own_clauses = ("C13", "ALL")
